@@ -279,7 +279,8 @@ func (g *guardEnv) predOfFact(f condFact, k elemKey, at *ssa.BasicBlock) predSet
 			}
 		}
 	case *ssa.Phi:
-		if f.Pol && g.conditionsFlag(x, k, at) {
+		// `ok` (true = all conditions passed) or its negation `rejected` (false = all passed)
+		if g.conditionsFlag(x, k, at, f.Pol) {
 			return pIf
 		}
 	}
@@ -306,7 +307,7 @@ func (g *guardEnv) matcherOf(v ssa.Value, k elemKey) bool {
 // conditionsFlag recognises the `ok := true; for _, fn := range each.If { if !fn(req) { ok = false; break } }; if ok`
 // idiom: phi is true only when the loop over the candidate's If list ran to exhaustion, and every
 // element of that list was called with the request.
-func (g *guardEnv) conditionsFlag(phi *ssa.Phi, k elemKey, at *ssa.BasicBlock) bool {
+func (g *guardEnv) conditionsFlag(phi *ssa.Phi, k elemKey, at *ssa.BasicBlock, passed bool) bool {
 	_, vals, ok := phiBoolConsts(phi)
 	if !ok {
 		return false
@@ -356,7 +357,7 @@ func (g *guardEnv) conditionsFlag(phi *ssa.Phi, k elemKey, at *ssa.BasicBlock) b
 		for pred != header && len(pred.Preds) == 1 && len(pred.Succs) == 1 {
 			pred = pred.Preds[0]
 		}
-		if v && pred != header {
+		if v == passed && pred != header {
 			return false
 		}
 	}
